@@ -593,6 +593,12 @@ def check(src, rep, tier):
     rep.guard('C17.R8', r8_paragraphs_own_their_values, src)
     rep.need('C17.R7', 8)
     rep.guard('C17.R7', r7_reader_requirements, src)
+    # the codec functions and converters are functions of their argument: no memo, no result object shared between two calls
+    rep.need('C17.R9', 8)
+    rep.guard('C17.R9', common.check_no_hidden_state, src, 'C17.R9',
+              [M + ':format_multiline', M + ':format_multiline_lines', M + ':parse_multiline', M + ':parse_multiline_as_lines', M + ':License.from_str', M + ':License.to_str',
+               M + ':_LineBased.from_str', M + ':_LineBased.to_str', M + ':_SpaceSeparated.from_str', M + ':_SpaceSeparated.to_str'],
+              'decoding the same field text twice must give two independent results (a list of lines that one caller edits is otherwise what the next decoding of that text returns)')
     rep.need('C17.R5', 3)
     rep.guard('C17.R5', common.check_line_primitive, src, 'C17.R5', [M + ':format_multiline', M + ':parse_multiline_as_lines', M + ':License.to_str'],
               'a copyright or license text that contains such a character inside a line (the form feeds of the GPL texts, U+2028 from a web page) comes back with that line cut in two')
